@@ -185,8 +185,12 @@ def build_property(pid, translators=None, extra_targets=()):
     obligation."""
     out = {"translators": [], "make_ok": False, "make_log": "", "lint": [], "theorems": [], "assumptions": []}
     with build_lock():
-        for name in (TRANSLATORS if translators is None else translators):
+        own = list(TRANSLATORS if translators is None else translators)
+        for name in own:
             out["translators"].append(run_translator(name))
+        # every other generated file is refreshed as well (not an obligation of this property): a Gen file left
+        # behind by a run against another state of the source must never leak into this build
+        out["aux_translators"] = [run_translator(name) for name in TRANSLATORS if name not in own]
         props = COQ / "Props" / f"{pid}.v"
         for ext in (".vo", ".glob", ".vos", ".vok"):
             f = props.with_suffix(ext)
